@@ -36,7 +36,9 @@ func genRegHist(maxLen int) [][]histOp {
 	var out [][]histOp
 	var rec func(cur []histOp, live map[string]bool)
 	rec = func(cur []histOp, live map[string]bool) {
-		if len(cur) > 0 && cur[len(cur)-1] != "E" {
+		if len(cur) > 0 {
+			// (a history ending in an event is followed by the final event all the same: closed plugins
+			// are reaped at the end of a request, the next request shows what the reaping left behind)
 			out = append(out, append([]histOp(nil), cur...))
 		}
 		if len(cur) == maxLen {
